@@ -11,7 +11,27 @@ use crate::{hx, parse_err_name, unhex};
 fn content(q: &Qualifiers) -> Value {
     let fwd: Vec<Value> = q.iter().map(|(k, v)| json!([hx(k.as_str()), hx(v)])).collect();
     let rev: Vec<Value> = q.iter().rev().map(|(k, v)| json!([hx(k.as_str()), hx(v)])).collect();
-    json!({"items": fwd, "rev": rev, "len": q.len(), "is_empty": q.is_empty()})
+    // the other ways of walking the collection (adaptor methods an iterator type may override, iter_mut, IntoIterator):
+    // every list below must equal `items` (or its reverse), every number `len`
+    let mut q2 = q.clone();
+    let n = q.len();
+    let pair = |o: Option<(&purl::qualifiers::QualifierKey, &str)>| o.map(|(k, v)| json!([hx(k.as_str()), hx(v)])).unwrap_or(Value::Null);
+    let nth: Vec<Value> = (0..n).map(|k| pair(q.iter().nth(k))).collect();
+    let nth_back: Vec<Value> = (0..n).map(|k| pair(q.iter().nth_back(k))).collect();
+    let mut mut_nth = Vec::new();
+    let mut mut_nth_back = Vec::new();
+    for k in 0..n {
+        mut_nth.push(q2.iter_mut().nth(k).map(|(k, v)| json!([hx(k.as_str()), hx(v.as_str())])).unwrap_or(Value::Null));
+        mut_nth_back.push(q2.iter_mut().nth_back(k).map(|(k, v)| json!([hx(k.as_str()), hx(v.as_str())])).unwrap_or(Value::Null));
+    }
+    let mut_fwd: Vec<Value> = q2.iter_mut().map(|(k, v)| json!([hx(k.as_str()), hx(v.as_str())])).collect();
+    let mut_rev: Vec<Value> = (&mut q2).into_iter().rev().map(|(k, v)| json!([hx(k.as_str()), hx(v.as_str())])).collect();
+    let into: Vec<Value> = q.into_iter().map(|(k, v)| json!([hx(k.as_str()), hx(v)])).collect();
+    let beyond = q.iter().nth(n).is_none() && q.iter().nth_back(n).is_none() && q2.iter_mut().nth(n).is_none() && q2.iter_mut().nth_back(n).is_none();
+    json!({"items": fwd, "rev": rev, "len": q.len(), "is_empty": q.is_empty(),
+           "walks": {"nth": nth, "nth_back": nth_back, "mut_nth": mut_nth, "mut_nth_back": mut_nth_back, "mut_fwd": mut_fwd, "mut_rev": mut_rev, "into": into,
+                     "count": q.iter().count(), "mut_count": q2.iter_mut().count(), "exact_len": q.iter().len(), "size_hint": q.iter().size_hint().0,
+                     "last": pair(q.iter().last()), "beyond_is_none": beyond}})
 }
 
 fn pairs(v: &Value) -> Vec<(String, String)> {
